@@ -92,6 +92,9 @@ def obligations(tier, seed):
 
     # ---- the capture chain: the coroutine's captured config IS the caller's config argument ----------------------------
     out += _capture_chain(srv)
+    # ---- read_body over chunked bodies: nothing above the limit is ever handed on ---------------------------------------
+    from .C19 import limit_obligations
+    out += limit_obligations(core, tier)
     return out
 
 
